@@ -149,10 +149,14 @@ def fill_list(items):
 
 # ---------------------------------------------------------------- list
 def run_list(case):
-    owner = cls_for(("list", case["vk"], case["minlen"], case["maxlen"]),
-                    lambda: List(INNER[case["vk"]], **list_kw(case["minlen"], case["maxlen"])))()
     init_raw = [raw_init(case["vk"], a) for a in case["init"]]
-    owner.x = list(init_raw)
+    if case.get("init_mode") == "default":       # the start value is the trait's declared default, never assigned
+        owner = cls_for(("list-d", case["vk"], case["minlen"], case["maxlen"], tuple(init_raw)),
+                        lambda: List(INNER[case["vk"]], list(init_raw), **list_kw(case["minlen"], case["maxlen"])))()
+    else:
+        owner = cls_for(("list", case["vk"], case["minlen"], case["maxlen"]),
+                        lambda: List(INNER[case["vk"]], **list_kw(case["minlen"], case["maxlen"])))()
+        owner.x = list(init_raw)
     rec = Rec(owner)
     hist = []
     for op in case["ops"]:
@@ -180,9 +184,13 @@ def run_list(case):
 
 # ---------------------------------------------------------------- set
 def run_set(case):
-    owner = cls_for(("set", case["vk"]), lambda: Set(INNER[case["vk"]]))()
     init_raw = set(raw_init(case["vk"], a) for a in case["init"])
-    owner.x = set(init_raw)
+    if case.get("init_mode") == "default":
+        owner = cls_for(("set-d", case["vk"], tuple(sorted(init_raw, key=repr))),
+                        lambda: Set(INNER[case["vk"]], set(init_raw)))()
+    else:
+        owner = cls_for(("set", case["vk"]), lambda: Set(INNER[case["vk"]]))()
+        owner.x = set(init_raw)
     rec = Rec(owner)
     hist = []
     for op in case["ops"]:
@@ -246,9 +254,13 @@ def pairs(ps):
 
 
 def run_dict(case):
-    owner = cls_for(("dict", case["kk"], case["vk"]), lambda: Dict(INNER[case["kk"]], INNER[case["vk"]]))()
     init_raw = dict((raw_init(case["kk"], k), raw_init(case["vk"], v)) for k, v in case["init"])
-    owner.x = dict(init_raw)
+    if case.get("init_mode") == "default":
+        owner = cls_for(("dict-d", case["kk"], case["vk"], tuple(init_raw.items())),
+                        lambda: Dict(INNER[case["kk"]], INNER[case["vk"]], dict(init_raw)))()
+    else:
+        owner = cls_for(("dict", case["kk"], case["vk"]), lambda: Dict(INNER[case["kk"]], INNER[case["vk"]]))()
+        owner.x = dict(init_raw)
     rec = Rec(owner)
     hist = []
     for op in case["ops"]:
@@ -509,6 +521,39 @@ def json_key(x):
     return tuple(tuple(b) for b in x)
 
 
+# ---------------------------------------------------------------- default values: first read of a never-assigned trait
+def run_default(case):
+    """The trait declares the raw default case["d"] (valid or not, inside or outside the bounds); a fresh instance
+    is created and the trait is READ (twice).  Observation: the outcome class and, if readable, the contents."""
+    sub = case["sub"]
+    if sub == "list":
+        d = [val(a) for a in case["d"]]
+        mk = lambda: List(INNER[case["vk"]], list(d), **list_kw(case["minlen"], case["maxlen"]))  # noqa
+    elif sub == "set":
+        d = set(val(a) for a in case["d"])
+        mk = lambda: Set(INNER[case["vk"]], set(d))  # noqa
+    else:
+        d = dict((val(k), val(v)) for k, v in case["d"])
+        mk = lambda: Dict(INNER[case["kk"]], INNER[case["vk"]], dict(d))  # noqa
+    owner = cls_for(("default", len(_classes)), mk)()
+
+    def read():
+        try:
+            v = owner.x
+            if sub == "list":
+                return "Ok", [atom(x) for x in v]
+            if sub == "set":
+                return "Ok", sorted(atom(x) for x in v)
+            return "Ok", [[atom(a), atom(b)] for a, b in v.items()]
+        except Exception as e:  # noqa
+            return exn(e), None
+    first = read()
+    second = read()
+    if second != first:
+        first = ("OtherError", None)        # the two reads must agree
+    return [{"out": first[0], "after": first[1]}]
+
+
 # ---------------------------------------------------------------- inventory of mutating methods
 NONMUT = {
     "list": {"__add__", "__class__", "__class_getitem__", "__contains__", "__delattr__", "__dir__", "__doc__", "__eq__",
@@ -548,7 +593,7 @@ def run_mutators():
 def main():
     p = dlib.load()
     fn = {"list": run_list, "set": run_set, "dict": run_dict, "nested": run_nested, "ndict": run_ndict,
-          "deep": run_deep}
+          "deep": run_deep, "default": run_default}
     if isinstance(p, list):              # vlib.hist passes the bare list of cases; each names its kind
         dlib.dump([fn[c["kind"]](c) for c in p])
     elif p["mode"] == "mutators":
